@@ -48,7 +48,8 @@ TablesOf(Us) == { u.s : u \in Us }
 \* ---- (a) the logged offsets follow the layout rules ------------------------------------------------
 CoreG_(e) == Specs(e.coreG)
 CoreL_(e) == Specs(e.coreL)
-CoreTableOK(e) == Shapes(CoreG_(e)) = CoreGlobalShapes /\ Shapes(CoreL_(e)) = CoreLocalShapes
+CoreTableOK(e) == /\ Shapes(CoreG_(e)) = CoreGlobalShapes
+                  /\ \E b \in {13, 15} : Shapes(CoreL_(e)) = CoreLocalShapesB(b)
 ChainCoreOK(e) ==
     /\ CoreG_(e) = ChainOf(Shapes(CoreG_(e)), WZero)
     /\ CoreL_(e) = ChainOf(Shapes(CoreL_(e)), OffsetAfter(CoreG_(e)[Len(CoreG_(e))]))
